@@ -266,6 +266,20 @@ func dEdits() []dEdit {
 		}
 		return `  secret "S2" { value "raw:k2"  valid_from "` + from + `"` + u + ` }`
 	}
+	h1 := func(value, until string) string {
+		u := ""
+		if until != "" {
+			u = `  valid_until "` + until + `"`
+		}
+		return `  secret "H1" { value "raw:` + value + `"  valid_from "1999-01-01T00:00:00Z"` + u + ` }`
+	}
+	h2 := func(value, from, until string) string {
+		u := ""
+		if until != "" {
+			u = `  valid_until "` + until + `"`
+		}
+		return `  secret "H2" { value "raw:` + value + `"  valid_from "` + from + `"` + u + ` }`
+	}
 	return []dEdit{
 		// ---- signing through named secrets with validity windows (the bubble's clock starts 2000-01-01)
 		e("sign:secret-ref", func(c *dConfig) {
@@ -287,6 +301,27 @@ func dEdits() []dEdit {
 			t.Lines = replaceLine(t.Lines, `sign hmac secret_ref "S1"`, ``)
 			t.Lines = append(t.Lines, `sign hmac secret_ref "S1"`)
 		})),
+		// ---- inbound authentication through named secrets with validity windows: a reload that touches nothing but the
+		// secret pool (a window, a value, a reference), alone and with a limit edit riding along
+		e("ingress-hmac:secret-refs", func(c *dConfig) {
+			secretsBlock(h1("k1", ""), h2("k2", "1999-06-01T00:00:00Z", ""))(c)
+			c.Routes = append(c.Routes, dRoute{Path: "/h1", Lines: []string{`auth hmac secret_ref "H1"`, `auth hmac secret_ref "H2"`, `max_body 64`}, Pull: "/eh"})
+		}),
+		on("ingress-hmac:secret-refs", e("ingress-hmac:secret-retired", secretsBlock(h1("k1", "1999-12-01T00:00:00Z"), h2("k2", "1999-06-01T00:00:00Z", "")))),
+		on("ingress-hmac:secret-refs", e("ingress-hmac:secret-retired+max-body", func(c *dConfig) {
+			secretsBlock(h1("k1", "1999-12-01T00:00:00Z"), h2("k2", "1999-06-01T00:00:00Z", ""))(c)
+			rt := c.route("/h1")
+			rt.Lines = replaceLine(rt.Lines, "max_body", `max_body 8`)
+		})),
+		on("ingress-hmac:secret-refs", e("ingress-hmac:secret-not-yet-valid", secretsBlock(h1("k1", ""), h2("k2", "2001-01-01T00:00:00Z", "")))),
+		on("ingress-hmac:secret-refs", e("ingress-hmac:secret-value", secretsBlock(h1("k1", ""), h2("k3", "1999-06-01T00:00:00Z", "")))),
+		on("ingress-hmac:secret-refs", e("ingress-hmac:secret-ref-dropped", rline("/h1", `auth hmac secret_ref "H1"`, ``))),
+		on("ingress-hmac:secret-refs", e("ingress-hmac:inline-secret", func(c *dConfig) {
+			rt := c.route("/h1")
+			rt.Lines = replaceLine(rt.Lines, `auth hmac secret_ref "H1"`, ``)
+			rt.Lines = replaceLine(rt.Lines, `auth hmac secret_ref "H2"`, `auth hmac "raw:k3"`)
+		})),
+		on("ingress-hmac:secret-refs", e("ingress-hmac:max-body-only", rline("/h1", "max_body", `max_body 8`))),
 		// ---- deliver routes
 		e("route:deliver-added", func(c *dConfig) {
 			c.Routes = append(c.Routes, dRoute{Path: "/d5", Targets: []dTarget{{URL: "http://" + hostHooks + "/t12"}}})
@@ -442,16 +477,23 @@ type dUniverse struct {
 	paths     []string    // route paths
 	backlog   [][2]string // (route, target) of the messages in the store before the boot
 	endpoints []string    // pull endpoint paths
+	hmacPaths []string    // route paths that some member protects with inbound HMAC authentication
 }
 
 func dUniverseOf(ms []dMember) dUniverse {
 	var u dUniverse
-	seenP, seenB, seenE := map[string]bool{}, map[[2]string]bool{}, map[string]bool{}
+	seenP, seenB, seenE, seenH := map[string]bool{}, map[[2]string]bool{}, map[string]bool{}, map[string]bool{}
 	for _, m := range ms {
 		for _, rt := range m.cfg.Routes {
 			if !seenP[rt.Path] {
 				seenP[rt.Path] = true
 				u.paths = append(u.paths, rt.Path)
+			}
+			for _, l := range rt.Lines {
+				if strings.HasPrefix(l, "auth hmac") && !seenH[rt.Path] {
+					seenH[rt.Path] = true
+					u.hmacPaths = append(u.hmacPaths, rt.Path)
+				}
 			}
 			if rt.Pull != "" {
 				if k := [2]string{rt.Path, "pull"}; !seenB[k] {
@@ -473,6 +515,7 @@ func dUniverseOf(ms []dMember) dUniverse {
 	}
 	sort.Strings(u.paths)
 	sort.Strings(u.endpoints)
+	sort.Strings(u.hmacPaths)
 	sort.Slice(u.backlog, func(i, j int) bool {
 		if u.backlog[i][0] != u.backlog[j][0] {
 			return u.backlog[i][0] < u.backlog[j][0]
@@ -684,6 +727,29 @@ func dRun(t *testing.T, u dUniverse, a dMember, b *dMember, port int, dir string
 			w := httptest.NewRecorder()
 			ap.Ingress.ServeHTTP(w, rq)
 			obs = append(obs, fmt.Sprintf("ingress POST %s [%s] %q -> %d", q.path, q.auth, q.body, w.Code))
+		}
+		// inbound HMAC (docs/security.md: hex(HMAC-SHA256(secret, timestamp \n METHOD \n path \n sha256hex(body))), default
+		// header names, a fresh nonce per request): every path of the family that some member protects that way, signed
+		// under every secret of the family, with a body below and a body above the smallest max_body of the family
+		for _, p := range u.hmacPaths {
+			for _, sec := range strings.Fields(dSecretSet) {
+				for _, body := range []string{"s|" + sec, "signed|" + p + "|" + sec} {
+					rq := httptest.NewRequest("POST", p, strings.NewReader(body))
+					rq.Host = "h"
+					rq.RemoteAddr = "10.1.2.3:5555"
+					rq.Header.Set("Content-Type", "text/plain")
+					ts := strconv.FormatInt(time.Now().Unix(), 10)
+					sum := sha256.Sum256([]byte(body))
+					mac := hmac.New(sha256.New, []byte(sec))
+					mac.Write([]byte(ts + "\nPOST\n" + p + "\n" + hex.EncodeToString(sum[:])))
+					rq.Header.Set("X-Timestamp", ts)
+					rq.Header.Set("X-Nonce", "n|"+body)
+					rq.Header.Set("X-Signature", hex.EncodeToString(mac.Sum(nil)))
+					w := httptest.NewRecorder()
+					ap.Ingress.ServeHTTP(w, rq)
+					obs = append(obs, fmt.Sprintf("ingress POST %s [signed under %s] %q -> %d", p, sec, body, w.Code))
+				}
+			}
 		}
 		// the dispatcher built at boot runs for the horizon
 		tr.t0 = time.Now()
@@ -1002,7 +1068,7 @@ func dispatchDiffPart(r *runner.Run, t *testing.T) {
 	}
 	r.Set("dispatch_diff", map[string]any{"family": len(fam), "pairs": ran, "pairs_not_run": skipped, "reload_reported_applied": applied, "reload_refused": refused,
 		"pairs_whose_two_references_differ": telling, "distinct_reference_behaviours": len(distinctRefs), "probe_lines_per_run": len(refs[0].obs),
-		"backlog_messages": len(u.backlog), "route_paths": len(u.paths), "pull_endpoints": len(u.endpoints), "wall_s": time.Since(tStart).Seconds()})
+		"backlog_messages": len(u.backlog), "route_paths": len(u.paths), "inbound_hmac_paths": len(u.hmacPaths), "signed_ingress_probes_per_run": len(u.hmacPaths) * len(strings.Fields(dSecretSet)) * 2, "pull_endpoints": len(u.endpoints), "wall_s": time.Since(tStart).Seconds()})
 	r.Add("dispatch_reload_applied", int64(applied))
 	r.Add("dispatch_reload_refused", int64(refused))
 	if skipped > 0 {
